@@ -258,6 +258,16 @@ def corpus():
             out.append(case_dict(kind, tr, tr == "unix", 3, ["c1:g", "p1", "E", "p1", "c2:g", "p2", "E", "E", "p1", "p2", "c3:g",
                                                              "r3:" + frame(b"\xff\xfe\xfd").hex(), "E", "p1", "c4:g", "p4",
                                                              "l1", "E", "p2"]))
+    for kind in ("threaded", "forking"):
+        # no thread / child process can be started for a newcomer (spawn() / os.fork() fail): it is turned away, the server and
+        # everybody it serves go on, the next newcomer is served
+        out.append(case_dict(kind, "tcp", False, 3, ["c1:g", "p1", "f2", "p1", "c3:g", "r3:" + frame(b"\xff\xfe\xfd").hex(), "f4",
+                                                     "f5", "p1", "c6:g", "p6", "l1", "w6"]))
+    for kind in KINDS:
+        # a crowd holding connections open: the server process has about a thousand descriptors in use, so the sockets of the
+        # clients that come now get numbers beyond 1024; they are served like anybody else, hostile ones are contained
+        out.append(case_dict(kind, "tcp", False, 3, ["c1:g", "p1", "c2:g", "r2:" + frame(b"\xff\xfe\xfd").hex(), "p1", "l1",
+                                                     "c3:g", "i3:t", "p1", "u1:0", "a3", "c4:g", "p4", "p1"], opts=["hifd"]))
     pf = protocol_frames()
     for kind in KINDS:
         # every one of the protocol's own messages sent by a client that has no business sending it, each on a connection of
@@ -601,6 +611,11 @@ def oracle_case(case, known=(), ceiling=servers.CEILING):
                 sess.do(tok)             # an error from accept(): an event of the environment
                 faulted = True
                 continue
+            if t == "f":
+                sess.do(tok)             # a newcomer nobody can be spawned for: whether IT is turned away is C17's business
+                hostile.add(int(tok[1:]))
+                faulted = True
+                continue
             k = int(tok[1:].split(":")[0])
 
             where = "after op %d (%s): " % (i, tok[:60])
@@ -675,7 +690,7 @@ def oracle_case(case, known=(), ceiling=servers.CEILING):
             if t == "c" and obs != "ok":
                 return (where + "a well-behaved client could not connect: %s%s"
                         % (obs, " (after an error from accept())" if faulted else ""),
-                        "C16:%s:%s" % (kind, "accept-error-closes-server" if faulted else "not-accepting"))
+                        "C16:%s:%s" % (kind, "accept-or-spawn-error-closes-server" if faulted else "not-accepting"))
             if t in "plodumw":
                 want = dict(p=("pong",), l=("ref",), o=("keyerr", "resolved"), d=("done",), u=("pong",), m=("done",),
                             w=("pong",))[t]
@@ -692,7 +707,7 @@ def oracle_case(case, known=(), ceiling=servers.CEILING):
                             x.count(":") == 2 and x[0] == "c" for x in case["ops"][:i]):
                         sig = "C16:pool:fd-reuse-drops-newcomer"
                     if obs == "eof" and faulted:
-                        sig = "C16:%s:accept-error-closes-server" % kind
+                        sig = "C16:%s:accept-or-spawn-error-closes-server" % kind
                     if t == "u":
                         sig = "C16:%s:good-client-wrong-result" % kind
                     if t == "w" and obs.startswith("wrong"):
@@ -718,7 +733,7 @@ def oracle_case(case, known=(), ceiling=servers.CEILING):
         if not snap["A"] or not snap["L"]:
             return ("at the end: accept loop alive=%s listener open=%s%s"
                     % (snap["A"], snap["L"], " (after an error from accept())" if faulted else ""),
-                    "C16:%s:%s" % (kind, "accept-error-closes-server" if faulted else "accept-dead"))
+                    "C16:%s:%s" % (kind, "accept-or-spawn-error-closes-server" if faulted else "accept-dead"))
         excuse = None
         if kind == "pool" and len(holding | in_hook) >= case["nb"]:
             excuse = SIG_STARVE
